@@ -245,6 +245,15 @@ def run_case(concepts, case, spec):
                 with core.monitor_code():
                     judge_order(common.tie(c3.lattice, c3), cap, 'loaded_raw')
             how = RAW_HOWS[hash(gen.table_key(case)) % len(RAW_HOWS)]
+            if hash(gen.table_key(case)) % 2:        # the same raw documents through JSON text
+                import io as _io
+                import json as _json
+                for doc in (permuted_dict(d, rng), structured_raw_dict(d, rng, 'reversed')):
+                    c5 = call(concepts.Context.fromjson, _io.StringIO(_json.dumps(doc)), raw=True)
+                    if c5 is not RAISED and 'lattice' in vars(c5):
+                        COL.count('raw_documents_through_fromjson')
+                        with core.monitor_code():
+                            judge_order(common.tie(c5.lattice, c5), cap, 'loaded_raw')
             c4 = call(concepts.Context.fromdict, structured_raw_dict(d, rng, how), raw=True)
             if c4 is not RAISED and 'lattice' in vars(c4):
                 COL.count('structured_raw_' + how)
